@@ -7,6 +7,9 @@
 (*                         any other exception propagates                                                     *)
 (*   string_ref            a non-owning reference to a C string that may be null                              *)
 (*   severity_level        printing and severity_from_string                                                  *)
+(*   plain sinks           stdout, stderr, log file, null: what a logger built over them writes is the        *)
+(*                         concatenation of the formatted records, in order, flushed after each; null writes    *)
+(*                         nothing; the null_filter rejects nothing                                             *)
 EXTENDS Naturals, Sequences, FiniteSets, TLC, Json
 
 (* ---- exception classes: a small hierarchy ------------------------------------------------------------- *)
@@ -38,12 +41,21 @@ Upper(s) == CASE s = "trace" -> "TRACE" [] s = "Debug" -> "DEBUG" [] s = "info" 
               [] s = "error" -> "ERROR" [] s = "fatal " -> "FATAL " [] s = "warning" -> "WARNING" [] s = "inf" -> "INF" [] OTHER -> s
 FromString(s, d) == LET m == { k \in 0..5 : SevNames[k + 1] = Upper(s) } IN IF m = {} THEN d ELSE CHOOSE k \in m : TRUE
 
+(* ---- plain sinks ---------------------------------------------------------------------------------------------- *)
+Sinks == {"stdout", "stderr", "logfile", "null"}
+Msgs == {"m1", "m2x", ""}
+MsgSeqs == UNION { [1..n -> Msgs] : n \in 0..3 }
+RECURSIVE Written(_)
+Written(ms) == IF ms = <<>> THEN "" ELSE Head(ms) \o "|" \o Written(Tail(ms))      \* the driver's formatter appends "|"
+SinkD(sk, ms) == IF sk = "null" THEN "" ELSE Written(ms)
+
 VARIABLES kind, a, b, res
 vars == <<kind, a, b, res>>
 Init ==
   \/ /\ kind = "catch" /\ a \in Filters /\ b \in Classes \cup {"none"} /\ res = CatchD(a, b)
   \/ /\ kind = "ref" /\ a \in Refs /\ b \in Refs
      /\ res = [empty |-> RefEmpty(a), eq |-> RefEq(a, b), ne |-> ~RefEq(a, b), size |-> (IF a = "<null>" THEN 0 ELSE StrLen(a))]
+  \/ /\ kind = "sink" /\ a \in Sinks /\ b \in MsgSeqs /\ res = [bytes |-> SinkD(a, b), elsewhere |-> ""]
   \/ /\ kind = "sev" /\ a \in Inputs /\ b \in 0..5 /\ res = [from |-> FromString(a, b), printed |-> Printed(b)]
 Next == UNCHANGED vars
 Spec == Init /\ [][Next]_vars
@@ -52,6 +64,7 @@ Spec == Init /\ [][Next]_vars
 DefaultFilterIsStdException == kind = "catch" /\ a = <<>> => res = CatchD(<<"std_exception">>, b)
 NonStdAlwaysPropagates == kind = "catch" /\ b = "int" => res.out = "propagates"
 RefEqSymmetric == kind = "ref" => RefEq(a, b) = RefEq(b, a)
+NullWritesNothing == kind = "sink" /\ a = "null" => res.bytes = ""
 RoundTrip == \A k \in 0..5 : FromString(SevNames[k + 1], (k + 1) % 6) = k
 Emit == PrintT("CASE " \o ToJson([kind |-> kind, a |-> a, b |-> b, res |-> res]))
 =============================================================================
